@@ -12,6 +12,7 @@ verus! {
 //@include ../shim/slices.rs
 //@include ../shim/bins_types.rs
 //@include ../shim/grid_types.rs
+//@include ../shim/iterchain.rs
 //@include ../shim/grid_iter.rs
 
 impl<A: Ord> Grid<A> {
